@@ -46,6 +46,22 @@ def scn_for(name, specs, alter=None, two_events=False):
     return Scenario(name, mkcfg(sessions, markets=markets, agents=ags, events=ev))
 
 
+def halt_scenarios():
+    """a built-in rule that stops the market from inside an after-execution hook, listed BEFORE probe events
+    with after-execution hooks, and one matching round with two fills"""
+    sc = {}
+    menu = [[], [sl(0, 125), sl(0, 125)], [bl(0, 125, 2)], [bl(0, 101)], [sl(0, 99)], [CL]]
+    for tm in (None, [2], [2, 3]):
+        for second in (["execution", False, None, None], ["order", False, None, None]):
+            name = "halt_midbatch:t%s-%s" % ("None" if tm is None else "_".join(map(str, tm)), second[0])
+            ags = [dict(name="A0", menu=menu, program=[0, 2, 3, 3], markets=["M0"]), dict(name="A1", menu=menu, program=[1, 0, 4, 4], markets=["M0"])]
+            ev = {"H": {"class": "TradingHaltRule", "targetMarkets": ["M0"], "triggerChangeRate": 0.125, "haltingTimeLength": 1},
+                  "E": {"class": "ProbeEvent", "hooks": [["execution", False, tm, None], second]}}
+            sessions = [S(0, 2, True, False, maxNormalOrders=2, events=["H", "E"]), S(1, 2, True, True, maxNormalOrders=2)]
+            sc[name] = Scenario(name, mkcfg(sessions, markets=[dict(name="M0")], agents=ags, events=ev))
+    return sc
+
+
 def spec_name(sp):
     return "%s-%s-t%s-%s" % (sp[0], "before" if sp[1] else "after", "None" if sp[2] is None else "_".join(map(str, sp[2])) or "empty", sp[3] or "nofilter")
 
@@ -76,7 +92,15 @@ def pair_scenarios():
 def scenarios(tier):
     sc = single_scenarios()
     sc.update(pair_scenarios())
+    sc.update(halt_scenarios())
     return sc
+
+
+def acc_C13_multifill(w):
+    acc_C13(w)
+    for e in w.ev:
+        if e[0] == "round" and len(e[2]) >= 2:
+            w.wit.inc("fills_in_multi_fill_round_hooked", len(e[2]))
 
 
 def on_exc(w):
@@ -136,6 +160,7 @@ def run(tier, seed):
     res = common.Result("C13", tier, seed)
     run_r("C13", tier, seed, single_scenarios(), [acc_C13], 1 if tier == "quick" else 2, on_exc, [], RULE, res=res, label="single_specs")
     run_r("C13", tier, seed, pair_scenarios(), [acc_C13], 0 if tier == "quick" else 1, on_exc, WIT, RULE, res=res, label="spec_pairs", split=0)
+    run_r("C13", tier, seed, halt_scenarios(), [acc_C13_multifill], 2 if tier == "quick" else 3, on_exc, ["fills_in_multi_fill_round_hooked"], RULE, res=res, label="halt_inside_execution_hook")
     ctor_grid(res)
     # double registration through a configuration
     sc = {"double": scn_for("double", [["order", True, None, None]])}
